@@ -105,6 +105,34 @@ func (cr *caseRun) after() {
 	cr.settle()
 	cr.collectDeliveries()
 	cr.snapshot()
+	cr.syncShadow()
+}
+
+// the generator's idea of which topics/channels exist follows the daemon (ephemeral
+// ones disappear on their own)
+func (cr *caseRun) syncShadow() {
+	doc := cr.statsInproc()
+	topics := map[int]bool{}
+	chans := map[[2]int]bool{}
+	for _, t := range doc.Topics {
+		topics[tid(t.TopicName)] = true
+		for _, c := range t.Channels {
+			chans[[2]int{tid(t.TopicName), cid(c.ChannelName)}] = true
+		}
+	}
+	for t := range cr.topics {
+		if !topics[t] {
+			delete(cr.tpaused, t)
+			delete(cr.hadChan, t)
+		}
+	}
+	for k := range cr.chans {
+		if !chans[k] {
+			delete(cr.cpaused, k)
+			delete(cr.hadClient, k)
+		}
+	}
+	cr.topics, cr.chans = topics, chans
 }
 
 // ------------------------------------------------------------------ operations
@@ -455,10 +483,16 @@ func tagsOf(bodies [][]byte) map[int]bool {
 func (cr *caseRun) opScan(t, c int, inflight bool, ahead time.Duration) {
 	if ahead > 0 && cr.chans[[2]int{t, c}] && !cr.cpaused[[2]int{t, c}] {
 		cr.opPauseChan(t, c, true)
-		cr.opScan(t, c, inflight, ahead)
-		cr.opPauseChan(t, c, false)
+		if cr.cpaused[[2]int{t, c}] {
+			cr.doScan(t, c, inflight, ahead)
+			cr.opPauseChan(t, c, false)
+		}
 		return
 	}
+	cr.doScan(t, c, inflight, ahead)
+}
+
+func (cr *caseRun) doScan(t, c int, inflight bool, ahead time.Duration) {
 	at := time.Now().Add(ahead).UnixNano()
 	bi, bd, ok := cr.d.VerifHeld(tname(t), cname(c))
 	resp := "ROk"
